@@ -203,6 +203,33 @@ theorem uniformBin_max {bins : Nat} (hb : 0 < bins) {lo range eps : α}
   have := (uniformBin_last bins lo range eps (lo + range) (bins - 1) (by omega) hP).1
   omega
 
+/-- Interval form of the floor characterisation: bin `k` is `[lo + k·w, lo + (k+1)·w)` with the
+common width `w = (range + eps)/bins`. -/
+theorem uniformBin_interval {bins : Nat} (hb : 0 < bins) {lo range eps x : α}
+    (hw : 0 < range + eps) (hlo : lo ≤ x) (hhi : x < lo + (range + eps)) (k : Nat) :
+    k = uniformBin (Nat.cast : Nat → α) bins lo range eps x
+      ↔ lo + (k : α) * ((range + eps) / (bins : α)) ≤ x
+          ∧ x < lo + ((k : α) + 1) * ((range + eps) / (bins : α)) := by
+  have hbpos : (0 : α) < (bins : α) := by exact_mod_cast hb
+  have hhi' : (bins : α) * (x - lo) < (bins : α) * (range + eps) :=
+    mul_lt_mul_of_pos_left (by linarith) hbpos
+  rw [uniformBin_spec hb hw hlo hhi' k]
+  have hW : range + eps = (bins : α) * ((range + eps) / (bins : α)) := by
+    rw [mul_div_cancel₀ _ hbpos.ne']
+  set w := (range + eps) / (bins : α)
+  rw [hW]
+  have e1 : (k : α) * ((bins : α) * w) = (bins : α) * ((k : α) * w) := by ring
+  have e2 : ((k : α) + 1) * ((bins : α) * w) = (bins : α) * (((k : α) + 1) * w) := by ring
+  rw [e1, e2]
+  constructor
+  · rintro ⟨h1, h2⟩
+    have := le_of_mul_le_mul_left h1 hbpos
+    have := lt_of_mul_lt_mul_left h2 hbpos.le
+    constructor <;> linarith
+  · rintro ⟨h1, h2⟩
+    exact ⟨mul_le_mul_of_nonneg_left (by linarith) hbpos.le,
+      mul_lt_mul_of_pos_left (by linarith) hbpos⟩
+
 end Uniform
 
 /-! ## `maxentLoop` and `countLE` -/
@@ -448,6 +475,23 @@ theorem sorted_getD_le {a : List α} (hs : a.Pairwise (· ≤ ·)) {i j : Nat} (
   · exact le_refl _
   · exact (List.pairwise_iff_getElem.mp hs) i j hi hj hlt
 
+theorem sorted_head_le {a : List α} (hs : a.Pairwise (· ≤ ·)) :
+    ∀ x ∈ a, a.getD 0 0 ≤ x := by
+  intro x hx
+  obtain ⟨i, hi, rfl⟩ := List.mem_iff_getElem.mp hx
+  rw [← getD_lt hi]
+  exact sorted_getD_le hs (Nat.zero_le _) hi
+
+theorem sorted_le_last {a : List α} (hs : a.Pairwise (· ≤ ·)) (hne : 0 < a.length) :
+    ∀ x ∈ a, x ≤ a.getD (a.length - 1) 0 := by
+  intro x hx
+  obtain ⟨i, hi, rfl⟩ := List.mem_iff_getElem.mp hx
+  rw [← getD_lt hi]
+  exact sorted_getD_le hs (by omega) (by omega)
+
+theorem getD_mem {a : List α} {i : Nat} (hi : i < a.length) : a.getD i 0 ∈ a := by
+  rw [getD_lt hi]; exact List.getElem_mem hi
+
 end SortAsc
 
 /-! ## `quantileSorted` -/
@@ -541,5 +585,327 @@ theorem quantileSorted_mono {a : List α} (hs : a.Pairwise (· ≤ ·)) (hne : 0
     exact le_trans hA (le_trans hmid hB)
 
 end Quantile
+
+/-! ## `maxentThresholds`, `maxentBinning` -/
+
+section Thresholds
+variable {α : Type} [Field α] [LinearOrder α] [IsStrictOrderedRing α]
+
+theorem maxentThresholds_length (bins : Nat) (ts : List α) :
+    (maxentThresholds (Nat.cast : Nat → α) bins ts).length = bins + 1 := by
+  unfold maxentThresholds; simp
+
+theorem maxentThresholds_getD (bins : Nat) (ts : List α) {i : Nat} (hi : i ≤ bins) :
+    (maxentThresholds (Nat.cast : Nat → α) bins ts).getD i 0
+      = quantileSorted (Nat.cast : Nat → α) (sortAsc ts) i bins := by
+  rw [List.getD_eq_getElem?_getD]
+  unfold maxentThresholds
+  rw [List.getElem?_map, List.getElem?_range (by omega)]
+  rfl
+
+/-- Percentiles of an empty sample list are all `0` in the model. -/
+theorem quantileSorted_nil (num den : Nat) :
+    quantileSorted (Nat.cast : Nat → α) [] num den = 0 := by
+  rw [quantileSorted_eq]; simp
+
+/-- The percentile thresholds are non-decreasing (for every sample list and every `bins`). -/
+theorem maxentThresholds_mono (bins : Nat) (ts : List α) (i j : Nat) (hij : i ≤ j)
+    (hj : j ≤ bins) :
+    (maxentThresholds (Nat.cast : Nat → α) bins ts).getD i 0
+      ≤ (maxentThresholds (Nat.cast : Nat → α) bins ts).getD j 0 := by
+  rw [maxentThresholds_getD bins ts (le_trans hij hj), maxentThresholds_getD bins ts hj]
+  rcases Nat.eq_zero_or_pos bins with hb | hb
+  · have : i = j := by omega
+    rw [this]
+  · rcases Nat.eq_zero_or_pos ts.length with h0 | h0
+    · have : ts = [] := List.length_eq_zero_iff.mp h0
+      subst this
+      have : sortAsc ([] : List α) = [] := rfl
+      rw [this, quantileSorted_nil, quantileSorted_nil]
+    · exact quantileSorted_mono (sortAsc_sorted ts) (by rw [sortAsc_length]; exact h0) hij hj hb
+
+theorem maxentThresholds_sorted (bins : Nat) (ts : List α) :
+    (maxentThresholds (Nat.cast : Nat → α) bins ts).Pairwise (· ≤ ·) := by
+  rw [List.pairwise_iff_getElem]
+  intro i j hi hj hij
+  have hj' : j ≤ bins := by rw [maxentThresholds_length] at hj; omega
+  have := maxentThresholds_mono bins ts i j hij.le hj'
+  rwa [getD_lt hi, getD_lt hj] at this
+
+theorem maxentBinning_eq_countLE {bins : Nat} (hb : 0 < bins) (ts : List α) :
+    maxentBinning (Nat.cast : Nat → α) bins ts
+      = ts.map (fun x => some (countLE (maxentThresholds (Nat.cast : Nat → α) bins ts) bins x)) := by
+  unfold maxentBinning
+  apply List.map_congr_left
+  intro x _
+  exact maxentLoop_eq_countLE _ hb x (maxentThresholds_mono bins ts)
+
+end Thresholds
+
+/-! ## Equally populated bins -/
+
+section Population
+variable {α : Type} [Field α] [LinearOrder α] [IsStrictOrderedRing α]
+
+/-- A predicate that holds exactly on the first `k` positions is counted `k` times. -/
+theorem countP_prefix (p : α → Bool) (a : List α) (k : Nat) (hk : k ≤ a.length)
+    (h1 : ∀ j (hj : j < a.length), j < k → p a[j] = true)
+    (h2 : ∀ j (hj : j < a.length), k ≤ j → p a[j] = false) : a.countP p = k := by
+  conv_lhs => rw [← List.take_append_drop k a]
+  rw [List.countP_append]
+  have e1 : (a.take k).countP p = (a.take k).length := by
+    rw [List.countP_eq_length]
+    intro x hx
+    obtain ⟨i, hi, rfl⟩ := List.mem_iff_getElem.mp hx
+    rw [List.getElem_take]
+    rw [List.length_take] at hi
+    exact h1 i (by omega) (by omega)
+  have e2 : (a.drop k).countP p = 0 := by
+    rw [List.countP_eq_zero]
+    intro x hx
+    obtain ⟨i, hi, rfl⟩ := List.mem_iff_getElem.mp hx
+    rw [List.getElem_drop]
+    rw [List.length_drop] at hi
+    rw [h2 (k + i) (by omega) (by omega)]
+    simp
+  rw [e1, e2, List.length_take]
+  omega
+
+/-- Ceiling division written with the quotient and the remainder. -/
+theorem ceil_div (p : Nat) {den : Nat} (hd : 0 < den) :
+    (p + den - 1) / den = p / den + (if p % den = 0 then 0 else 1) := by
+  have e := Nat.div_add_mod p den
+  have hm := Nat.mod_lt p hd
+  apply Nat.div_eq_of_lt_le
+  · rw [Nat.add_mul]
+    rw [Nat.mul_comm (p / den) den]
+    split_ifs with h <;> omega
+  · rw [Nat.add_mul, Nat.add_mul]
+    rw [Nat.mul_comm (p / den) den]
+    split_ifs with h <;> omega
+
+/-- For strictly increasing samples, the number of samples strictly below the percentile at
+`num/den < 1` is `⌈num·(n−1)/den⌉`. -/
+theorem countP_lt_quantile {a : List α} (hs : a.Pairwise (· < ·)) (hne : 0 < a.length)
+    {num den : Nat} (hnd : num < den) :
+    a.countP (fun x => decide (x < quantileSorted (Nat.cast : Nat → α) a num den))
+      = (num * (a.length - 1) + den - 1) / den := by
+  have hd : 0 < den := by omega
+  have hle : a.Pairwise (· ≤ ·) := hs.imp (fun h => le_of_lt h)
+  have hlo := lo_le (n := a.length) hnd.le hd
+  have e := Nat.div_add_mod (num * (a.length - 1)) den
+  have hm := Nat.mod_lt (num * (a.length - 1)) hd
+  have hget := List.pairwise_iff_getElem.mp hs
+  rw [ceil_div _ hd]
+  by_cases hr : num * (a.length - 1) % den = 0
+  · -- the percentile is a sample
+    rw [if_pos hr, Nat.add_zero]
+    have ht : quantileSorted (Nat.cast : Nat → α) a num den
+        = a[num * (a.length - 1) / den]'(by omega) := by
+      rw [quantileSorted_eq, hr, getD_lt (by omega : num * (a.length - 1) / den < a.length)]
+      simp
+    rw [ht]
+    apply countP_prefix _ _ _ (by omega)
+    · intro j hj hjk
+      simpa using hget j _ hj (by omega) hjk
+    · intro j hj hjk
+      rw [decide_eq_false_iff_not, not_lt]
+      rcases Nat.eq_or_lt_of_le hjk with heq | hlt
+      · simp [heq]
+      · exact (hget _ j (by omega) hj hlt).le
+  · -- the percentile lies strictly between two consecutive samples
+    rw [if_neg hr]
+    have hlt : num * (a.length - 1) / den < a.length - 1 := by
+      have h1 : den * (num * (a.length - 1) / den) < den * (a.length - 1) := by
+        have h2 : num * (a.length - 1) ≤ den * (a.length - 1) := Nat.mul_le_mul_right _ hnd.le
+        omega
+      exact Nat.lt_of_mul_lt_mul_left h1
+    have hmin : min (num * (a.length - 1) / den + 1) (a.length - 1)
+        = num * (a.length - 1) / den + 1 := by omega
+    have hxy : a[num * (a.length - 1) / den]'(by omega)
+        < a[num * (a.length - 1) / den + 1]'(by omega) := hget _ _ _ _ (by omega)
+    have f0 : (0 : α) < ((num * (a.length - 1) % den : Nat) : α) / (den : α) :=
+      div_pos (by exact_mod_cast Nat.pos_of_ne_zero hr) (by exact_mod_cast hd)
+    have f1 := frac_lt_one (α := α) (num * (a.length - 1)) hd
+    have ht := quantileSorted_eq a num den
+    rw [hmin, getD_lt (by omega : num * (a.length - 1) / den < a.length),
+      getD_lt (by omega : num * (a.length - 1) / den + 1 < a.length)] at ht
+    set f := ((num * (a.length - 1) % den : Nat) : α) / (den : α)
+    set x := a[num * (a.length - 1) / den]'(by omega)
+    set y := a[num * (a.length - 1) / den + 1]'(by omega)
+    have g1 : 0 < (y - x) * f := mul_pos (by linarith) f0
+    have g2 : 0 < (y - x) * (1 - f) := mul_pos (by linarith) (by linarith)
+    have hxt : x < quantileSorted (Nat.cast : Nat → α) a num den := by rw [ht]; linarith
+    have hty : quantileSorted (Nat.cast : Nat → α) a num den < y := by rw [ht]; nlinarith
+    apply countP_prefix _ _ _ (by omega)
+    · intro j hj hjk
+      rw [decide_eq_true_iff]
+      refine lt_of_le_of_lt ?_ hxt
+      rcases Nat.eq_or_lt_of_le (Nat.lt_succ_iff.mp hjk) with heq | hlt'
+      · simp [x, heq]
+      · exact (hget j _ hj (by omega) hlt').le
+    · intro j hj hjk
+      rw [decide_eq_false_iff_not, not_lt]
+      refine le_trans hty.le ?_
+      rcases Nat.eq_or_lt_of_le hjk with heq | hlt'
+      · simp [y, heq]
+      · exact (hget _ j (by omega) hj hlt').le
+
+/-- Counting one value of a `Nat`-valued function through its cumulative counts. -/
+theorem countP_eq_add {β : Type} (f : β → Nat) (l : List β) (k : Nat) :
+    l.countP (fun x => decide (f x = k)) + l.countP (fun x => decide (f x < k))
+      = l.countP (fun x => decide (f x < k + 1)) := by
+  induction l with
+  | nil => rfl
+  | cons x t ih =>
+    rw [List.countP_cons, List.countP_cons, List.countP_cons]
+    rcases Nat.lt_trichotomy (f x) k with h | h | h
+    · have a1 : ¬ f x = k := by omega
+      have a3 : f x < k + 1 := by omega
+      simp only [decide_eq_true_eq, if_pos h, if_neg a1, if_pos a3]; omega
+    · have a2 : ¬ f x < k := by omega
+      have a3 : f x < k + 1 := by omega
+      simp only [decide_eq_true_eq, if_pos h, if_neg a2, if_pos a3]; omega
+    · have a1 : ¬ f x = k := by omega
+      have a2 : ¬ f x < k := by omega
+      have a3 : ¬ f x < k + 1 := by omega
+      simp only [decide_eq_true_eq, if_neg a1, if_neg a2, if_neg a3]; omega
+
+/-- The number of samples whose label is below `j`, for distinct samples: `⌈j·(n−1)/bins⌉` for
+`j < bins`. -/
+theorem cum_label {bins : Nat} (ts : List α) (hn : ts.Nodup) (hne : 0 < ts.length) {j : Nat}
+    (hj : j < bins) :
+    ts.countP (fun x => decide
+        (countLE (maxentThresholds (Nat.cast : Nat → α) bins ts) bins x < j))
+      = (j * (ts.length - 1) + bins - 1) / bins := by
+  rcases Nat.eq_zero_or_pos j with h0 | h0
+  · subst h0
+    have hb : 0 < bins := hj
+    rw [Nat.zero_mul, Nat.zero_add, Nat.div_eq_of_lt (by omega)]
+    rw [List.countP_eq_zero]
+    intro x _; simp
+  · have hcong : ts.countP (fun x => decide
+          (countLE (maxentThresholds (Nat.cast : Nat → α) bins ts) bins x < j))
+        = ts.countP (fun x => decide
+            (x < quantileSorted (Nat.cast : Nat → α) (sortAsc ts) j bins)) := by
+      apply List.countP_congr
+      intro x _
+      rw [decide_eq_true_iff, decide_eq_true_iff]
+      have := countLE_iff (maxentThresholds (Nat.cast : Nat → α) bins ts) bins x
+        (maxentThresholds_mono bins ts) j h0 hj
+      rw [maxentThresholds_getD bins ts hj.le] at this
+      constructor
+      · intro h
+        exact not_le.mp (fun hle => absurd (this.mp hle) (by omega))
+      · intro h
+        have := mt this.mpr (not_le.mpr h)
+        omega
+    rw [hcong, ← (sortAsc_perm ts).countP_eq]
+    have := countP_lt_quantile (sortAsc_strict ts hn) (by rw [sortAsc_length]; exact hne) hj
+    rw [sortAsc_length] at this
+    exact this
+
+/-- The number of samples whose label is below `bins` is all of them. -/
+theorem cum_label_all {bins : Nat} (hb : 0 < bins) (ts : List α) :
+    ts.countP (fun x => decide
+        (countLE (maxentThresholds (Nat.cast : Nat → α) bins ts) bins x < bins))
+      = ts.length := by
+  rw [List.countP_eq_length]
+  intro x _
+  rw [decide_eq_true_iff]
+  exact countLE_lt _ hb x
+
+/-- `⌈(k+1)m/b⌉ − ⌈km/b⌉` is `⌊m/b⌋` or `⌈m/b⌉`. -/
+theorem ceil_step (k m : Nat) {b : Nat} (hb : 0 < b) :
+    (k * m + b - 1) / b + m / b ≤ ((k + 1) * m + b - 1) / b
+      ∧ ((k + 1) * m + b - 1) / b ≤ (k * m + b - 1) / b + (m + b - 1) / b := by
+  have e1 := Nat.div_add_mod (k * m + b - 1) b
+  have m1 := Nat.mod_lt (k * m + b - 1) hb
+  have e2 := Nat.div_add_mod ((k + 1) * m + b - 1) b
+  have m2 := Nat.mod_lt ((k + 1) * m + b - 1) hb
+  have e3 := Nat.div_add_mod m b
+  have m3 := Nat.mod_lt m hb
+  have e4 := Nat.div_add_mod (m + b - 1) b
+  have m4 := Nat.mod_lt (m + b - 1) hb
+  have hk : (k + 1) * m = k * m + m := by rw [Nat.add_mul, Nat.one_mul]
+  rw [hk] at e2 m2 ⊢
+  generalize (k * m + b - 1) / b = c at *
+  generalize (k * m + m + b - 1) / b = c' at *
+  generalize m / b = q at *
+  generalize (m + b - 1) / b = Q at *
+  generalize k * m = km at *
+  constructor
+  · by_contra hlt
+    have h : c' + 1 ≤ c + q := by omega
+    have := Nat.mul_le_mul_left b h
+    rw [Nat.mul_add, Nat.mul_add, Nat.mul_one] at this
+    omega
+  · by_contra hlt
+    have h : c + Q + 1 ≤ c' := by omega
+    have := Nat.mul_le_mul_left b h
+    rw [Nat.mul_add, Nat.mul_add, Nat.mul_one] at this
+    omega
+
+/-- The last bin: `n − ⌈(b−1)(n−1)/b⌉ = ⌈n/b⌉`, bounded as the others. -/
+theorem ceil_last (m : Nat) {b : Nat} (hb : 0 < b) :
+    ((b - 1) * m + b - 1) / b + m / b ≤ m + 1
+      ∧ m + 1 ≤ ((b - 1) * m + b - 1) / b + (m + 1 + b - 1) / b := by
+  obtain ⟨b', rfl⟩ : ∃ b', b = b' + 1 := ⟨b - 1, by omega⟩
+  rw [Nat.add_sub_cancel]
+  have e1 := Nat.div_add_mod (b' * m + (b' + 1) - 1) (b' + 1)
+  have m1 := Nat.mod_lt (b' * m + (b' + 1) - 1) hb
+  have e3 := Nat.div_add_mod m (b' + 1)
+  have m3 := Nat.mod_lt m hb
+  have e4 := Nat.div_add_mod (m + 1 + (b' + 1) - 1) (b' + 1)
+  have m4 := Nat.mod_lt (m + 1 + (b' + 1) - 1) hb
+  generalize (b' * m + (b' + 1) - 1) / (b' + 1) = c at *
+  generalize m / (b' + 1) = q at *
+  generalize (m + 1 + (b' + 1) - 1) / (b' + 1) = Q at *
+  have hbm : (b' + 1) * m = b' * m + m := by rw [Nat.add_mul, Nat.one_mul]
+  constructor
+  · by_contra hlt
+    have h : m + 2 ≤ c + q := by omega
+    have := Nat.mul_le_mul_left (b' + 1) h
+    rw [Nat.mul_add, Nat.mul_add, hbm] at this
+    omega
+  · by_contra hlt
+    have h : c + Q ≤ m := by omega
+    have := Nat.mul_le_mul_left (b' + 1) h
+    rw [Nat.mul_add, hbm] at this
+    omega
+
+/-- **Equally populated.** For pairwise distinct samples, every label `k < bins` is received by
+at least `⌊(n−1)/bins⌋` and at most `⌈n/bins⌉` samples. -/
+theorem label_population {bins : Nat} (hb : 0 < bins) (ts : List α) (hn : ts.Nodup) {k : Nat}
+    (hk : k < bins) :
+    (ts.length - 1) / bins
+        ≤ ts.countP (fun x => decide
+            (countLE (maxentThresholds (Nat.cast : Nat → α) bins ts) bins x = k))
+      ∧ ts.countP (fun x => decide
+            (countLE (maxentThresholds (Nat.cast : Nat → α) bins ts) bins x = k))
+        ≤ (ts.length + bins - 1) / bins := by
+  rcases Nat.eq_zero_or_pos ts.length with h0 | hne
+  · have : ts = [] := List.length_eq_zero_iff.mp h0
+    subst this
+    simp
+  · have hadd := countP_eq_add
+      (fun x => countLE (maxentThresholds (Nat.cast : Nat → α) bins ts) bins x) ts k
+    rw [cum_label ts hn hne hk] at hadd
+    have hup : (ts.length - 1 + bins - 1) / bins ≤ (ts.length + bins - 1) / bins :=
+      Nat.div_le_div_right (by omega)
+    rcases Nat.lt_or_ge (k + 1) bins with hk1 | hk1
+    · rw [cum_label ts hn hne hk1] at hadd
+      have := ceil_step k (ts.length - 1) hb
+      omega
+    · have hkb : k + 1 = bins := by omega
+      rw [hkb, cum_label_all hb ts] at hadd
+      have := ceil_last (ts.length - 1) hb
+      have hk' : k = bins - 1 := by omega
+      subst hk'
+      have e : ts.length - 1 + 1 + bins - 1 = ts.length + bins - 1 := by omega
+      rw [e] at this
+      omega
+
+end Population
 
 end Dit.Lemmas.Binning
